@@ -85,3 +85,33 @@ Proof. exact k2_refuted. Qed.
 Example C02_nonvacuous : run_join hid ok_query = Some (spec_join ok_query) /\
   spec_join ok_query = [([VStr "a"], [RVal (VInt 150); RVal (VInt 2)]); ([VStr "b"], [RVal (VInt 100); RVal (VInt 1)]); ([VNull], [RVal (VInt 7); RVal (VInt 0)])].
 Proof. exact ok_example. Qed.
+
+Require V.Model.CteShape V.Gen.CteShape_gen V.Proofs.CteShape_proofs.
+(* THE KEY COLUMNS A MODEL CTE PROJECTS (regenerated table of _build_model_cte: see Props/C20.v, C20_cte_table).  For ANY model definition, graph and query: the
+   primary key and every key column the join paths of the query use on the model are projected (so that every hop of the plan can be joined on its declared columns),
+   and a requested dimension that is NOT one of the projected key columns is projected with its own SQL.  A dimension NAMED like a projected key column is not: the key is
+   projected under that name first and the dimension's SQL is never evaluated (class C02-K4; the witness below is a row of the regenerated table). *)
+Theorem C02_cte_table : forallb (V.Model.CteShape.cte_row_ok V.Gen.CteShape_gen.cte_world) V.Gen.CteShape_gen.cte_rows = true.
+Proof. exact V.Proofs.CteShape_proofs.cte_table_holds. Qed.
+Theorem C02_primary_key_projected : forall qa trunc parse m graph dims filters order_by all_models mfc jk k,
+  In k (V.Model.CteShape.mo_pk m) -> In k (V.Model.CteShape.st_added (V.Model.CteShape.cte_keys_dims qa trunc parse m graph dims filters order_by all_models mfc jk)).
+Proof. exact V.Proofs.CteShape_proofs.primary_key_projected. Qed.
+Theorem C02_join_keys_projected : forall qa trunc parse m graph dims filters order_by all_models mfc l k,
+  In k l -> In k (V.Model.CteShape.st_added (V.Model.CteShape.cte_keys_dims qa trunc parse m graph dims filters order_by all_models mfc (Some l))).
+Proof. exact V.Proofs.CteShape_proofs.join_key_projected. Qed.
+Theorem C02_non_key_dimension_own_sql : forall qa trunc parse m graph dims filters order_by all_models mfc jk dref g d,
+  In (dref, g) dims -> V.Model.Preagg.starts_with (V.Model.CteShape.mo_name m ++ ".") dref = true ->
+  V.Model.CteShape.get_dim (V.Model.CteShape.mo_dims m) (V.Model.CteShape.second_piece dref) = Some d ->
+  ~ In (V.Model.CteShape.second_piece dref)
+       (V.Model.CteShape.st_added (V.Model.CteShape.key_phases qa m graph (match all_models with [] => [V.Model.CteShape.mo_name m] | _ => all_models end) jk
+                                     ([], [], V.Model.CteShape.needed_dims parse (V.Model.CteShape.mo_name m) dims filters order_by mfc))) ->
+  In (V.Model.CteShape.dim_expr trunc m d, qa (V.Model.CteShape.second_piece dref))
+     (V.Model.CteShape.st_items (V.Model.CteShape.cte_keys_dims qa trunc parse m graph dims filters order_by all_models mfc jk)).
+Proof. exact V.Proofs.CteShape_proofs.non_key_dimension_own_sql. Qed.
+Example C02_key_named_dimension_refuted :
+  let sc := (0, 0, 1, 1, 0, [("o.c_id"%string, None); ("o.id"%string, None)], [], None, None, None)%nat in
+  let res := ("QI(o_cte)", [("id", "QA(id)"); ("c_id", "QA(c_id)"); ("o_fk", "QA(o_fk)")], "raw.o", None)%string in
+  V.Model.CteShape.cte_of_scenario V.Gen.CteShape_gen.cte_world sc = Some res /\ V.Model.CteShape.row_in V.Gen.CteShape_gen.cte_rows sc res = true /\
+  option_map V.Model.CteShape.cd_sql (V.Model.CteShape.get_dim V.Gen.CteShape_gen.w_dims "c_id") = Some "c_id * 1"%string /\
+  option_map V.Model.CteShape.cd_sql (V.Model.CteShape.get_dim V.Gen.CteShape_gen.w_dims "id") = Some "id + 0"%string.
+Proof. vm_compute. repeat split; reflexivity. Qed.
